@@ -256,6 +256,16 @@ def check(tier, seed):
     rep.coverage['persisted_best_tracking'] = dict(save_load_cycles=pruns, **pstats)
     bad += [b for b in pbad if any(w in b.get('violated', '') for w in ('best', 'lowest'))]
     bad += direct_checks(seed)
+    # histories that mix hand-run epochs with fit() calls: model vs code (ties Proofs/AnyHistory.lean), invariants on every dump
+    from ..solverprop import manual_campaign
+    okm, _ = kernel_phase(rep, 'NdeVerif.Proofs.AnyHistory', 'NdeVerif.AnyHistory', ['inv_any_history', 'best_tracking_any_history', 'any_history_from_init'], tag='C05any')
+    if not okm:
+        broken.append(dict(kind='proof', failed=rep.failed))
+    man = manual_campaign(tier, seed)
+    rep.coverage['hand_run_epoch_histories'] = dict(scripts=man['scripts'], manual_epochs=man['manual_epochs'], mismatches=len(man['mismatches']))
+    if man['mismatches']:
+        broken.append(dict(kind='correspondence', stream='hand-run epochs mixed with fit() vs NdeVerif.Solver', count=len(man['mismatches']), first=man['mismatches'][:2]))
+    bad += [b for b in man['bad'] if 'lowest_loss' in b['violated']]
     rep.samples = [dict(script=l, solver=kw) for l, kw in camp.scripts[:3]]
     rep.assumptions = ['optimiser arithmetic is an oracle (scripted integer optimisers in the correspondence; real Adam/LBFGS are not modelled)',
                        'deepcopy of the networks is a value copy (observed: best_nets never aliases nets)',
